@@ -14,7 +14,7 @@
   Sequential semantics under `pool.mu` only: data races are not expressible in this model (they are exercised by the
   harness with the race detector).
 -/
-import Aqv.Lemmas.TxPoolReorg
+import Aqv.Lemmas.TxPoolCount
 namespace Aqv.Props.C15
 open Aqv.TxPool
 
@@ -133,6 +133,7 @@ theorem inv_step (s : Pool) (op : Op) (h : Good s) : Good (s.step true op) ∧ I
     | add t loc sh vs sl qo => exact addTx_pres addClosed_good s t loc sh vs sl qo h
     | adds ts loc vs sl qo => exact addTxs_pres addClosed_good s ts _ vs sl qo h
     | setGasPrice p => exact setGasPrice_good s p h
+    | setGasPriceO p drops => exact foldl_pres Good _ (fun s t hs => removeTx_good t hs) _ _ (show Good { s with gasPrice := p } from h)
     | reset v o n r d i orc => exact reset_good s v o n r d i orc h
     | evictIdle a => exact evictIdle_good s a h
   exact ⟨this, good_inv this⟩
@@ -233,6 +234,9 @@ theorem all_ok_step (g : Bool) (s : Pool) (op : Op) (h : Good s) (ha : AllOK s) 
   | setGasPrice p =>
     exact (foldl_pres WA _ (fun s t hs => addClosed_wa.rem s t hs) _ _
       (show WA { s with gasPrice := p } from hwa)).2
+  | setGasPriceO p drops =>
+    exact (foldl_pres WA _ (fun s t hs => addClosed_wa.rem s t hs) _ _
+      (show WA { s with gasPrice := p } from hwa)).2
   | reset v o n r d i orc => exact reset_allok g s v o n r d i orc h ha
   | evictIdle a =>
     show AllOK (s.evictIdle a)
@@ -267,15 +271,85 @@ theorem prefix_removeTx_witness :
 
 /-! ## reorg re-injection -/
 
-/-  Full statement (`reorg_reinjects`): after `reset` across a reorganisation within the 64-block horizon every transaction of
-    `discarded \ included` that still validates against the new head is in pending ∪ queue, unless a limit eviction or a
-    same-slot competitor displaced it.
-    Proved below for LOCAL senders (they are exempt from every limit, so no side condition on the limits is needed), for both
-    demotion variants and every oracle.  Missing for non-local senders: the side condition "no limit binds during the reset"
-    needs the counting lemma Σ|pending a| + Σ|queue a| ≤ |all| to be discharged from a bound on the pool size; the clause is
-    judged on the real code for every generated history instead (harness `CheckReorg`), and the bookkeeping it rests on is
-    `all_ok_step`. -/
-theorem reorg_reinjects_partial (g : Bool) (s : Pool) (v : View) (oldNum newNum : Nat) (disc inc : List Tx) (orc : ResetOracle)
+/-- `accts` and `all` model Go maps: they hold no duplicates, in every reachable state (needed for counting). -/
+theorem nd_step (g : Bool) (s : Pool) (op : Op) (h : ND s) : ND (s.step g op) := by
+  cases op with
+  | add t loc sh vs sl qo => exact addTx_pres addClosed_nd s t loc sh vs sl qo h
+  | adds ts loc vs sl qo => exact addTxs_pres addClosed_nd s ts _ vs sl qo h
+  | setGasPrice p =>
+    exact foldl_pres ND _ (fun s t hs => removeTx_nd t hs) _ _ (show ND { s with gasPrice := p } from h)
+  | setGasPriceO p drops =>
+    exact foldl_pres ND _ (fun s t hs => removeTx_nd t hs) _ _ (show ND { s with gasPrice := p } from h)
+  | reset v o n r d i orc =>
+    show ND (s.reset g v o n r d i orc)
+    rw [reset_eq]
+    have h1 : ND (s.resetMid v o n r d i orc) := by
+      unfold Pool.resetMid
+      simp only
+      have h0 : ND ({ s with cnonce := v.nonce, balance := v.balance, maxGas := v.maxGas, pnonce := v.nonce } : Pool) := h
+      generalize ({ s with cnonce := v.nonce, balance := v.balance, maxGas := v.maxGas, pnonce := v.nonce } : Pool) = s0 at h0 ⊢
+      generalize (if (r && decide ((if o ≤ n then n - o else o - n) ≤ 64)) = true then txDifference d i else []) = reinject
+      split
+      · exact h0
+      · exact addTxs_pres addClosed_nd _ _ _ _ _ _ h0
+    have h2 : ND ((s.resetMid v o n r d i orc).demoteUnexecutables g) :=
+      foldl_pres ND _ (fun s a hs => demoteAcct_nd g a hs) _ _ h1
+    exact promoteExecutables_pres addClosed_nd.toClosed _ none orc.slots2 orc.qorder2 (syncNonces_nd h2)
+  | evictIdle a =>
+    show ND (s.evictIdle a)
+    unfold Pool.evictIdle
+    split
+    · exact h
+    · exact dropQueued_pres addClosed_nd.toClosed _ _ _ h
+
+/-- every reachable state satisfies the inductive invariant, has an exact lookup table and duplicate-free maps -/
+theorem tight_reachable (c : Cfg) (v : View) (ops : List Op) :
+    Good (ops.foldl (Pool.step true) (Pool.init c v)) ∧ AllOK (ops.foldl (Pool.step true) (Pool.init c v)) ∧
+    ND (ops.foldl (Pool.step true) (Pool.init c v)) := by
+  have : ∀ (ops : List Op) (s : Pool), Good s → AllOK s → ND s →
+      Good (ops.foldl (Pool.step true) s) ∧ AllOK (ops.foldl (Pool.step true) s) ∧ ND (ops.foldl (Pool.step true) s) := by
+    intro ops
+    induction ops with
+    | nil => intro s h1 h2 h3; exact ⟨h1, h2, h3⟩
+    | cons op rest ih =>
+      intro s h1 h2 h3
+      exact ih _ (inv_step s op h1).1 (all_ok_step true s op h1 h2) (nd_step true s op h3)
+  exact this ops _ (good_init c v).1 (good_init c v).2 ⟨List.nodup_nil, List.nodup_nil⟩
+
+/-- **After a chain reorganisation the transactions that dropped out of the canonical chain are pooled again if still
+    valid** — every sender kind, both demotion variants, every eviction oracle.  After `reset` across a reorganisation
+    within the pool's 64-block horizon, every transaction of `discarded \ included` that validates against the new head
+    (validateTx, price floor included) is in pending ∪ queue, provided the pool has room: what is pooled plus what is
+    re-injected fits the per-account queue cap, the pool-wide queue cap and the pending-slot limit.  Then the pool never
+    fills up and no limit binds; the only way the code refuses a still-valid transaction with a free slot is the
+    full-pool-and-underpriced path, made explicit in `reinject_refused_only_when_full_and_underpriced`.  The dropped
+    transactions occupy distinct slots that are free in the pool (on a real chain they lie below the old chain nonce, the
+    pool above it). -/
+theorem reorg_reinjects (g : Bool) (s : Pool) (v : View) (oldNum newNum : Nat) (disc inc : List Tx) (orc : ResetOracle)
+    (h : Good s) (ha : AllOK s) (hnd : ND s)
+    (hdepth : (if oldNum ≤ newNum then newNum - oldNum else oldNum - newNum) ≤ 64)
+    (t : Tx) (ht : t ∈ txDifference disc inc)
+    (hval : ({ s with cnonce := v.nonce, balance := v.balance, maxGas := v.maxGas, pnonce := v.nonce } : Pool).validateTx t false .wellformed = .ok)
+    (hfresh : Fresh s (txDifference disc inc)) (hdistinct : (txDifference disc inc).Pairwise SlotNe)
+    (hroom : (s.all ++ txDifference disc inc).length ≤ s.cfg.accountQueue ∧
+             (s.all ++ txDifference disc inc).length ≤ s.cfg.globalQueue ∧
+             (s.all ++ txDifference disc inc).length ≤ s.cfg.globalSlots) :
+    (s.step g (.reset v oldNum newNum true disc inc orc)).pooled t :=
+  reset_reinjects g s v oldNum newNum disc inc orc h ha hnd hdepth t ht hval hfresh hdistinct hroom
+
+/-- The exception, as the code has it: a well-formed transaction that validates and whose slot is free is accepted by `add`
+    and pooled — or refused as underpriced, and that only when the pool is full (|all| ≥ GlobalSlots + GlobalQueue) and the
+    transaction is underpriced (sender not local, price ≤ the cheapest pooled price). No other refusal exists. -/
+theorem reinject_refused_only_when_full_and_underpriced (s : Pool) (t : Tx) (loc : Bool) (vs : List Tx) (h : Good s)
+    (ha : AllOK s) (hval : s.validateTx t loc .wellformed = .ok)
+    (hfree : ∀ p, s.pooled p → p.sender = t.sender → p.nonce ≠ t.nonce) :
+    ((s.add t loc .wellformed vs).1 = .ok ∧ (s.add t loc .wellformed vs).2.2.pooled t) ∨
+    ((s.add t loc .wellformed vs).1 = .underpriced ∧ s.cfg.globalSlots + s.cfg.globalQueue ≤ s.all.length ∧
+      s.underpriced t = true) :=
+  add_refusal_only_underpriced t loc vs ⟨h.weakAll, ha⟩ hval hfree
+
+/-  For LOCAL senders no capacity condition is needed at all (they are exempt from every limit and never underpriced): -/
+theorem reorg_reinjects_local (g : Bool) (s : Pool) (v : View) (oldNum newNum : Nat) (disc inc : List Tx) (orc : ResetOracle)
     (h : Good s) (ha : AllOK s)
     (hdepth : (if oldNum ≤ newNum then newNum - oldNum else oldNum - newNum) ≤ 64)
     (t : Tx) (ht : t ∈ txDifference disc inc) (hl : t.sender ∈ s.locals)
@@ -287,12 +361,13 @@ theorem reorg_reinjects_partial (g : Bool) (s : Pool) (v : View) (oldNum newNum 
 /-- a pool whose local sender 0 holds nonce 2 while the chain (nonce 2) had included its nonces 0 and 1 -/
 def q0 : Pool := (Pool.init wCfg wView2).step true (.add ⟨0,2,5,21000,100⟩ true .wellformed [] [] [])
 
-example : Good q0 ∧ AllOK q0 ∧ (0 : Addr) ∈ q0.locals ∧
+example : Good q0 ∧ AllOK q0 ∧ ND q0 ∧ (0 : Addr) ∈ q0.locals ∧
+    (q0.all ++ txDifference [⟨0,0,5,21000,100⟩, ⟨0,1,5,21000,100⟩] []).length ≤ q0.cfg.accountQueue ∧
     Fresh q0 (txDifference [⟨0,0,5,21000,100⟩, ⟨0,1,5,21000,100⟩] []) ∧
     (txDifference [⟨0,0,5,21000,100⟩, ⟨0,1,5,21000,100⟩] []).Pairwise SlotNe := by
   have hg : Good q0 := (inv_step _ _ (good_init wCfg wView2).1).1
   have ha : AllOK q0 := all_ok_step true _ _ (good_init wCfg wView2).1 (good_init wCfg wView2).2
-  refine ⟨hg, ha, by decide, ?_, ?_⟩
+  refine ⟨hg, ha, nd_step true _ _ ⟨List.nodup_nil, List.nodup_nil⟩, by decide, by decide, ?_, ?_⟩
   · intro x hx p hp hs
     have hpa : p ∈ q0.all := (ha p).mpr hp
     have hall : q0.all = [⟨0,2,5,21000,100⟩] := by decide
